@@ -286,7 +286,9 @@ PROPS = {
         'title': 'clean',
         # clean after builds that created their directories from several threads (who owns a directory is decided in
         # the window between mkdir and the reservation): the canonical race shape, all preemption pairs
-        'thread_units': (30, 400, 4, 0, 1, 6), 'full_pairs': (8, 80),
+        # (all single preemptions also in the quick tier: with four sampled ones the detection of seeded change
+        # C12f_w10 depended on the sample, which shifted when repairs D30 / D34 added lock operations)
+        'thread_units': (40, 400, 0, 0, 1, 6), 'full_pairs': (8, 80),
         # histories in which a query of the program fails with an OSError from a read-only call of the library
         # (listdir / stat / getsize / open for reading) and the program carries on (D35)
         'fault_extra': [('rebuildclean', 120, 2000, 6, 0, QUERY_FAULT_CALLS, 'query'),
